@@ -13,7 +13,7 @@ MUST_RAISE = [
     'origin-ref-2^30', 'origin-ref-negative', 'copy-number-256', 'header-id-66', 'header-seq-0', 'header-seq-1e10',
     'sul-id-61', 'sul-seq-10000', 'dtime-year-1899', 'dtime-year-2156', 'status-2', 'frame-without-channels',
     'zero-rows', 'record-length-odd', 'record-length-18', 'record-length-16386', 'int-attr-fraction', 'encrypted-2',
-    'window-empty', 'window-beyond', 'slong-2^31', 'missing-dataset-after-earlier-write', 'partial-data-after-earlier-write',
+    'window-empty', 'window-beyond', 'slong-2^31', 'list-to-single-valued-attribute', 'missing-dataset-after-earlier-write', 'partial-data-after-earlier-write',
 ]
 FRINGE = ['empty-value-list', 'empty-text', 'empty-payload', 'single-row', 'width-1', 'origin-ref-0', 'name-255', 'ident-255',
           'text-20000', 'units-255', 'many-values-300', 'set-name-255', 'header-id-65', 'sul-id-60', 'empty-ident',
@@ -36,7 +36,7 @@ def cases(tier, seed):
     i = 0
     reps = 2 if tier == 'quick' else 25
     for c in MUST_RAISE + FRINGE:
-        for j in range(reps * (4 if c.startswith('window-') else 1)):      # (window classes: several sources x chunk sizes)
+        for j in range(reps * (4 if c.startswith('window-') or c.startswith('list-to') else 1)):      # (window classes: several sources x chunk sizes)
             yield {'stratum': 'catalogue', 'index': i, 'kind': 'class', 'class': c}
             i += 1
 
@@ -211,6 +211,22 @@ def inject(sp, c, r):
     if c == 'int-attr-fraction':
         add({'op': 'calibration_measurement', 'name': 'CM-INJ', 'attrs': {'sample_count': 2.5}})
         return 'sample_count'
+    if c == 'list-to-single-valued-attribute':
+        # two values for an attribute that holds one (identifier-valued attributes have no converter to refuse them)
+        t, kw, vals = r.choice([('origin', 'file_type', ['PLAYBACK', 'FIELD']), ('origin', 'file_set_name', ['SET-A', 'SET-B']),
+                                ('origin', 'name_space_name', ['NS1', 'NS2']), ('calibration', 'method', ['M1', 'M2']),
+                                ('frame', 'direction', ['INCREASING', 'DECREASING']), ('message', 'message_type', ['T1', 'T2']),
+                                ('no_format', 'consumer_name', ['C1', 'C2']), ('zone', 'description', ['d1', 'd2']),
+                                ('equipment', 'serial_number', ['S1', 'S2']), ('axis', 'axis_id', ['A1', 'A2'])])
+        form = r.choice(['list', 'tuple'])
+        v = vals if form == 'list' else {'$tuple': vals}
+        if t == 'origin':
+            next(o for o in ops if o['op'] == 'origin')['attrs'][kw] = v
+        elif t == 'frame':
+            ops[frames[0]]['attrs'][kw] = v
+        else:
+            add({'op': t, 'name': 'LST-INJ', 'attrs': {kw: v}})
+        return f'{t} {kw} ({form})'
     if c == 'window-empty':
         sp['write'].update({'from_idx': min(1, n - 1), 'to_idx': min(1, n - 1)})
         return 'write window'
